@@ -17,6 +17,9 @@ EVIDENCE_DIR = os.path.join(VERIF_DIR, "evidence")
 REPLAY_DIR = os.path.join(VERIF_DIR, "replays")
 FINDINGS_FILE = os.path.join(VERIF_DIR, "known_findings.json")
 
+# captured at import, before vf.env may install a virtual monotonic clock (C12)
+_MONO = time.monotonic
+
 MAX_SAMPLES = 6
 MAX_VIOLATIONS_KEPT = 25
 
@@ -70,7 +73,7 @@ class Run:
         self.seed = seed
         self.shard = shard
         self.nshards = nshards
-        self.t0 = time.monotonic()
+        self.t0 = _MONO()
         self.time_cap = time_cap
         self.evaluations = 0
         self.fingerprints = set()
@@ -102,7 +105,7 @@ class Run:
     def time_left(self):
         if self.time_cap is None:
             return True
-        left = time.monotonic() - self.t0 < self.time_cap
+        left = _MONO() - self.t0 < self.time_cap
         if not left:
             self.capped = True
         return left
